@@ -44,6 +44,19 @@ SelectedOK(p, r) ==
 
 NoDupEntries(r) == \A i, j \in DOMAIN r.entries : (i # j) => (r.entries[i].k # r.entries[j].k \/ r.entries[i].h # r.entries[j].h)
 
+\* ---- context association under concurrency (C10): judged on the history of ALL context states of the real MDIB
+CtxOf(snap) == snap.st
+AssocIn(snap, d) == {c \in DOMAIN CtxOf(snap) : CtxOf(snap)[c].d = d /\ CtxOf(snap)[c].assoc = "Assoc"}
+OneAssocIn(snap) == \A c \in DOMAIN CtxOf(snap) : Cardinality(AssocIn(snap, CtxOf(snap)[c].d)) <= 1
+\* between two consecutive recorded versions: a state that stopped being associated carries the version at which that
+\* became visible as UnbindingMdibVersion (+ end time); a state that became associated carries it as BindingMdibVersion
+MarksOK(a, b) ==
+  \A c \in DOMAIN CtxOf(b) :
+    LET was == c \in DOMAIN CtxOf(a) /\ CtxOf(a)[c].assoc = "Assoc"
+        is == CtxOf(b)[c].assoc = "Assoc"
+    IN /\ (was /\ ~is) => (CtxOf(b)[c].assoc = "Dis" /\ CtxOf(b)[c].unbind > a.v /\ CtxOf(b)[c].unbind <= b.v /\ CtxOf(b)[c]["end"])
+       /\ (~was /\ is) => (CtxOf(b)[c].bind > a.v /\ CtxOf(b)[c].bind <= b.v /\ CtxOf(b)[c].start)
+
 RunOK(rec) ==
   /\ Clause("request_answered", rec.errors = <<>>)     \* no operation (Get request, transaction) died with an exception
   /\ \A i \in DOMAIN rec.reads :
@@ -56,6 +69,10 @@ RunOK(rec) ==
   \* transaction ids handed out to concurrent operation requests: pairwise different, all newer than every id issued before
   /\ Clause("transaction_ids_unique", \A i, j \in DOMAIN rec.txids : i # j => rec.txids[i] # rec.txids[j])
   /\ Clause("transaction_ids_increase", \A i \in DOMAIN rec.txids : rec.txids[i] > rec.txid0)
+  \* every commit that wrote the MdibVersion raised it by exactly one (concurrent writers included)
+  /\ Clause("one_version_per_commit", rec.mver_end = rec.mver0 + rec.nwv)
+  /\ Clause("ctx_at_most_one_associated", \A i \in DOMAIN rec.ctxhist : OneAssocIn(rec.ctxhist[i]))
+  /\ Clause("ctx_binding_marks", \A i \in 1..(Len(rec.ctxhist) - 1) : MarksOK(rec.ctxhist[i], rec.ctxhist[i + 1]))
   /\ Clause("wire_in_version_order", \A i \in 1..(Len(rec.wire) - 1) : rec.wire[i] <= rec.wire[i + 1])
 
 TraceInit == tid \in 1..Len(Traces) /\ l = 0
